@@ -168,6 +168,10 @@ def check_tree(t, shape, names, maxcomp, only=None, kind="user"):
     pats = patterns_for(names, sep, maxcomp) if maxcomp <= 3 else patterns_for(names, sep, maxcomp, COMPS_DEEP)
     res = {(ic, rx): anytree.Resolver("name", ignorecase=ic, relax=rx) for ic in (False, True) for rx in (False, True)}
     ctx = {"shape": shape, "names": list(names), "kind": kind}
+    if RECONF[0]:
+        res = Reconfigured(anytree, "name", nodes[0])
+        ctx["reconfigured"] = True
+        t.c["reconfigured_resolver_trees"] += 1
     for start in range(m.n):
         t.c["states"] += 1
         pre_rank = {v: k for k, v in enumerate(m.pre(m.root(start)))}
@@ -230,8 +234,27 @@ def check_tree(t, shape, names, maxcomp, only=None, kind="user"):
         t.sample({"shape": shape, "names": list(names), "patterns": pats[:5] + pats[-5:]}, cap=1)
 
 
-def job(items):
+RECONF = [False]   # set per job: all four option settings are served by ONE Resolver re-configured through its public attributes
+
+
+class Reconfigured(object):
+    """resolvers[(ignorecase, relax)] -> always the same Resolver object, whose public attributes pathattr / ignorecase /
+    relax are assigned just before each call.  It was constructed with the opposite settings and has been used once."""
+
+    def __init__(self, anytree, attr, node):
+        self.attr = attr
+        self.r = anytree.Resolver("no_such_attribute", ignorecase=True, relax=True)
+        self.r.get(node, "x")
+        self.r.glob(node, "x*")
+
+    def __getitem__(self, key):
+        self.r.pathattr, self.r.ignorecase, self.r.relax = self.attr, key[0], key[1]
+        return self.r
+
+
+def job(items, reconf=False):
     t = core.Tally()
+    RECONF[0] = reconf
     for item in items:
         shape, names, maxcomp = item[:3]
         kind = item[3] if len(item) > 3 else "user"
@@ -379,8 +402,9 @@ def replay(c):
                 print("history found by the cache explorer:", t.violations[0]["case"]["history"])
                 break
         return [v["why"] for v in t.violations]
+    RECONF[0] = bool(c.get("reconfigured"))
     check_tree(t, _tup(c["shape"]), tuple(c["names"]), 4 if len(c["path"].split("/")) > 4 or c["path"].count("/") >= 3 else 3,
-               (c["start"], c["path"], c["ignorecase"]), c.get("kind", "user"))
+               None if RECONF[0] else (c["start"], c["path"], c["ignorecase"]), c.get("kind", "user"))
     return [v["why"] for v in t.violations]
 
 
@@ -413,14 +437,15 @@ def run(tier):
     t = core.Tally()
     pool = core.Pool(0)
     try:
-        pool.run([(MOD, "job", {"items": c}) for c in core.chunks(items[::-1], core.NPROC * 12)] + [("mc.capacity", "job", {"pid": "C08"})], into=t)
+        pool.run([(MOD, "job", {"items": c}) for c in core.chunks(items[::-1], core.NPROC * 12)] + [("mc.capacity", "job", {"pid": "C08"}), ("mc.positional", "job", {"pid": "C08"})], into=t)
         sem_states = t.c["states"]
         events = pool.call(MOD, "e3_events")
         depth = 4 if tier == "quick" else 5
         pool.run([(MOD, "e3_explore", {"depth": depth, "first_events": [ev]}) for ev in events], into=t)
     finally:
         pool.close()
-    core.run_pool([(MOD, "job", {"items": c}) for c in core.chunks(items[:100], core.NPROC)], 1, into=t)
+    core.run_pool([(MOD, "job", {"items": c, "reconf": True}) for c in core.chunks(items[:100], core.NPROC)], 1, into=t)
+    core.run_pool([(MOD, "job", {"items": c, "reconf": True}) for c in core.chunks(items[::9], core.NPROC * 4)], 0, into=t)
     cov = {
         "states": t.c["states"], "transitions": t.c["evaluations"] + t.c["transitions"],
         "traces_validated_against_impl": t.c["evaluations"],
@@ -435,7 +460,7 @@ def run(tier):
         "bounds": {"semantic_trees": len(items), "semantic_states": sem_states, "history_depth": depth, "cache_states": t.c["states"] - sem_states},
     }
     return {"tally": t, "coverage": cov,
-            "guards": ("capacity_checks", "nontrivial", "many_matches", "strict_raises:ChildResolverError", "strict_raises:RootResolverError",
+            "guards": ("positional_calls", "reconfigured_resolver_trees", "capacity_checks", "nontrivial", "many_matches", "strict_raises:ChildResolverError", "strict_raises:RootResolverError",
                        "strict_raises:ResolverError", "get_agreement_checked", "calls_after_fill", "calls_after_colliding_pattern",
                        "states_with_full_cache", "merged_states"),
             "assumptions": ["'**' directly after the leading separator is excluded (the statement does not say whether the root "
